@@ -12,7 +12,10 @@ TInit == l = 1
 TToken == /\ l <= Len(TraceLog) /\ Ev.ev = "token" /\ l' = l + 1 /\ TokenOutcomeOK(Ev.x, Ev.code, Ev.changed)
 TTls == /\ l <= Len(TraceLog) /\ Ev.ev = "tls" /\ l' = l + 1 /\ TlsOutcomeOK(Ev.x, Ev.accepted)
 TReset == l <= Len(TraceLog) /\ Ev.ev = "reset" /\ l' = l + 1
-TNext == TToken \/ TTls \/ TReset
+\* {"ev":"tokenrace", ...} : callers with the right token and callers with wrong tokens of the same length at the same time
+TTokenRace == /\ l <= Len(TraceLog) /\ Ev.ev = "tokenrace" /\ l' = l + 1
+              /\ Ev.wrong_calls > 0 /\ Ev.right_calls > 0 /\ Ev.accepted = 0 /\ Ev.right_refused = 0
+TNext == TToken \/ TTls \/ TTokenRace \/ TReset
 TSpec == TInit /\ [][TNext]_l
 TraceAccepted ==
   LET d == TLCGet("stats").diameter IN
